@@ -150,7 +150,7 @@ def nontrivial(c):
     n, s, k, comps = int(c.meta["n"]), int(c.meta["s"]), int(c.meta["k"]), int(c.meta["comps"])
     kind, mult = int(c.meta["hkind"]), int(c.meta["mult"])
     if k >= 2 or comps >= 2 or kind != 0 or mult == 0:
-        return (n, s, k, comps, kind, c.meta["equal"], mult, c.meta["rankdef"], c.meta.get("negwc", "0"))
+        return (n, s, k, comps, kind, str(c.meta["equal"]), mult, str(c.meta["rankdef"]), str(c.meta.get("negwc", "0")))
     return None
 
 
@@ -210,6 +210,8 @@ def compare(c, impl, model):
     fields, liks = [], []
     for pre in prefixes(c):
         fields += [pre + "components", pre + "lik_valid", pre + "weights"]
+        if int(c.meta["mult"]) and int(c.meta["s"]) >= 2:
+            fields += [pre + "2_lik_valid", pre + "2_out_equals_pred"]
         for i in range(comps):
             fields += [pre + "mean%d" % i, pre + "cov%d" % i]
             if int(c.meta["mult"]):
@@ -246,7 +248,7 @@ def oracle(c, impl, model):
         flag = "reduced" if pre == "r_" else "full"
         if impl.get(pre + "pred_unchanged") != 1:
             v.append(("C05:prior-modified:%s" % flag, "the predicted belief passed in was modified"))
-        if c.meta.get("negwc", "0") == "1":
+        if str(c.meta.get("negwc", "0")) == "1":
             continue          # wc_0 < 0: outside the property (the serial form needs sqrt(wc)); correspondence only
         if not mult:
             # size mismatch: output = input exactly, no likelihood
@@ -258,6 +260,12 @@ def oracle(c, impl, model):
         if impl.get(pre + "components") != comps or impl.get(pre + "dim") != n:
             v.append(("C05:shape:%s" % flag, "components/dim %s/%s for %d/%d" % (impl.get(pre + "components"), impl.get(pre + "dim"), comps, n)))
             continue
+        if int(c.meta["s"]) >= 2:
+            # second step on the same object, measurement size m+1: identity, and the first step's likelihood must not survive
+            if impl.get(pre + "2_out_equals_pred") != 1:
+                v.append(("C05:size-mismatch-not-identity:second-step:%s" % flag, "second step with meas=%d sub=%s: output differs from the predicted belief" % (int(c.meta["m"]) + 1, c.meta["s"])))
+            if impl.get(pre + "2_lik_valid") != 0:
+                v.append(("C05:stale-likelihood-after-size-mismatch:%s" % flag, "getLikelihood() reports the previous step's values after a step that returned early"))
         if impl.get(pre + "lik_valid") != 1 or impl.get(pre + "lik_size") != comps:
             v.append(("C05:likelihood-missing:%s" % flag, "likelihood not reported for every component"))
         wk = impl.get(pre + "weights")
@@ -275,7 +283,7 @@ def oracle(c, impl, model):
             ls = lik_scale(c, model, i)
             if ls <= LIK_SCALE_MAX and not lik_close(sl, ul, LIK_RTOL_UKF * ls):
                 v.append(("C05:sukf-ne-ukf:likelihood:%s" % flag, "component %d: %r vs %r (log tol %.3g)" % (i, sl, ul, LIK_RTOL_UKF * ls)))
-    if mult and c.has("Rblock") and c.meta.get("negwc", "0") != "1":
+    if mult and c.has("Rblock") and str(c.meta.get("negwc", "0")) != "1":
         for i in range(comps):
             tol = RTOL * cond * pscale(c)
             if not (caseio.close(impl.get("r_mean%d" % i), impl.get("f_mean%d" % i), tol, 0)
